@@ -78,7 +78,8 @@ EngDrift(x, o, what) ==
   ELSE LET m == Eng!EngObs(x.e)
            got == [b |-> [s \in Sq |-> o.b[s + 1]], stm |-> o.stm, cast |-> ToSet(o.cast), ep |-> o.ep, len |-> o.len,
                    wk |-> o.wk, bk |-> o.bk, h |-> o.h, sc |-> o.sc, kt |-> o.kt, cs |-> o.cs]
-       IN F(m = got, "DRIFT", "Engine.tla is out of step with the Game object after " \o what, Diff(m, got))
+       IN F(m = got /\ o.epraw = o.ep, "DRIFT", "Engine.tla is out of step with the Game object after " \o what,
+            IF m = got THEN [epraw |-> o.epraw] ELSE Diff(m, got))
 
 Init == l = 1 /\ pos = NoPos /\ prev = NoObs /\ stk = << >> /\ recs = << >> /\ eng = NoEng
 
